@@ -10,4 +10,4 @@ Extraction "../ocaml/sutoton_model.ml"
   SutotonTable.sutoton_table
   RewriteSpec.longest_match RewriteSpec.translit RewriteSpec.src_of RewriteSpec.segmented
   BinInt.Z.add BinInt.Z.mul BinInt.Z.opp
-  RewriteSpec.rewrite RewriteSpec.define RewriteSpec.strip RewriteSpec.strip_right RewriteSpec.width_map RewriteSpec.is_special.
+  RewriteSpec.rewrite RewriteSpec.define RewriteSpec.line_breaks RewriteSpec.definition_residue RewriteSpec.strip RewriteSpec.strip_right RewriteSpec.width_map RewriteSpec.is_special.
